@@ -50,6 +50,36 @@ pub fn request_stop(stop: bool) {
     STOP.store(stop, Ordering::SeqCst);
 }
 
+/// What the store tells a cooperative scheduler (see `set_sched_hook`).
+#[derive(Clone, Copy, Debug, Eq, PartialEq)]
+pub enum SchedEvent {
+    /// The calling thread is at a named point between two atomic pieces of an operation and
+    /// holds no store lock.  The hook may park the thread here.
+    Point(&'static str),
+    /// The calling thread linked into the store's wait list at this index.
+    Linked(u64),
+    /// true: the calling thread is about to wait for its turn at the head of the wait list (it
+    /// holds the state lock; the hook must not block).  false: it woke up again.
+    Blocking(bool),
+    /// The calling thread notified the head of the wait list.
+    NotifiedHead,
+}
+
+static SCHED_HOOK: std::sync::RwLock<Option<fn(SchedEvent)>> = std::sync::RwLock::new(None);
+
+/// Install (or remove) the hook through which a harness schedules store threads cooperatively
+/// at a few named points of the write and flush paths.  Not used under loom.
+pub fn set_sched_hook(hook: Option<fn(SchedEvent)>) {
+    *SCHED_HOOK.write().unwrap() = hook;
+}
+
+pub(crate) fn sched(event: SchedEvent) {
+    let hook = *SCHED_HOOK.read().unwrap();
+    if let Some(hook) = hook {
+        hook(event);
+    }
+}
+
 pub(crate) fn return_when_idle() -> bool {
     STOP.load(Ordering::SeqCst) || MODE.with(|m| m.get()) == StepMode::StepNoWait
 }
